@@ -564,6 +564,7 @@ class Array(metaclass=MetaArray):
             index = (index,)
         cls = self.__class__
         if hasattr(self, "_offsets"):
+            bound_check(index, self._shape)
             offset = self._offset + self._offsets[index]
         else:
             bound_check(index, self._shape)
@@ -582,6 +583,7 @@ class Array(metaclass=MetaArray):
             self[index]._update(value)
         else:
             if hasattr(self, "_offsets"):
+                bound_check(index, self._shape)
                 offset = self._offset + self._offsets[index]
             else:
                 bound_check(index, self._shape)
@@ -612,6 +614,7 @@ class Array(metaclass=MetaArray):
             index = (index,)
         cls = self.__class__
         if hasattr(self, "_offsets"):
+            bound_check(index, self._shape)
             offset = self._offset + self._offsets[index]
         else:
             bound_check(index, self._shape)
